@@ -166,3 +166,28 @@ impl PartialOrd for BigInt {
         unimplemented!()
     }
 }
+
+/// value of a decimal digit string
+pub open spec fn dec_value(s: Seq<char>) -> nat
+    decreases s.len(),
+{
+    if s.len() == 0 {
+        0
+    } else {
+        dec_value(s.drop_last()) * 10 + ((s.last() as u32 - '0' as u32) as nat)
+    }
+}
+
+/// from_str_radix accepts every non-empty string of decimal digits and returns its value (trusted, A-bigint)
+pub broadcast axiom fn axiom_radix_value_dec(s: Seq<char>)
+    ensures
+        s.len() > 0 && (forall|i: int| 0 <= i < s.len() ==> '0' <= (#[trigger] s[i]) <= '9') ==> #[trigger] radix_value(s, 10) == Some(dec_value(s) as int),
+;
+
+/// from_str_radix accepts every non-empty string of digits of the radix (trusted, A-bigint)
+pub broadcast axiom fn axiom_radix_value_hex(s: Seq<char>)
+    ensures
+        s.len() > 0 && (forall|i: int| 0 <= i < s.len() ==> (('0' <= (#[trigger] s[i]) <= '9') || ('a' <= s[i] <= 'f') || ('A' <= s[i] <= 'F'))) ==> (#[trigger] radix_value(s, 16)) is Some,
+        s.len() > 0 && (forall|i: int| 0 <= i < s.len() ==> '0' <= (#[trigger] s[i]) <= '7') ==> (#[trigger] radix_value(s, 8)) is Some,
+        s.len() > 0 && (forall|i: int| 0 <= i < s.len() ==> ((#[trigger] s[i]) == '0' || s[i] == '1')) ==> (#[trigger] radix_value(s, 2)) is Some,
+;
